@@ -206,6 +206,7 @@ class MomentVisitor:
     returned Solution."""
 
     solve_twin = True
+    fault_twin = False
 
     def __init__(self):
         self.acc = dict(moments=0, callback_moments=0, solve_twins=0, nontrivial_runs=0)
@@ -277,6 +278,22 @@ class MomentVisitor:
         except BaseException as e:
             msgs.append(f"Solve raised {type(e).__name__}: {e}")
         self.acc["solve_twins"] += 1
+        if self.fault_twin and n >= 2 and not msgs:
+            # the same answers through Solve with the LAST evaluation failing: the state must be that of n-1 trials
+            def failing(k, y):
+                if k == n:
+                    raise RuntimeError("injected objective failure")
+                return answers[k - 1]
+            twin2 = tree.make_run(dict(self.cfg, eps=0.0, itersLimit=n), failing, listeners=self.listeners(cfg))
+            self.run = twin2
+            try:
+                twin2.solve()
+                msgs += [m + " (Solve with a failed evaluation)" for m in self.cb_msgs]
+                msgs += [m + f" (after Solve whose evaluation {n} failed)"
+                         for m in self.oracle(twin2, Snapshot(twin2.solver), "after Solve")]
+            except BaseException as e:
+                msgs.append(f"Solve raised {type(e).__name__}: {e} although the failure happened inside the objective")
+            self.acc["fault_twins"] = self.acc.get("fault_twins", 0) + 1
         self.run = keep
         self.new_from = keep_from
         self.cb_msgs = []
